@@ -104,9 +104,13 @@ func cmdCheck(args []string) int {
 	id := args[0]
 	tier := os.Getenv("VERIF_TIER")
 	only := ""
+	oblig := "" // selftest aid: solve only obligations whose (file-name form of the) name contains this text
 	keep := false
 	for i := 1; i < len(args); i++ {
 		switch args[i] {
+		case "--oblig":
+			i++
+			oblig = args[i]
 		case "--tier":
 			i++
 			tier = args[i]
@@ -234,6 +238,15 @@ func cmdCheck(args []string) int {
 		for _, o := range vc.obls {
 			jobs = append(jobs, &job{vc: vc, o: o})
 		}
+	}
+	if oblig != "" {
+		var sel []*job
+		for _, j := range jobs {
+			if strings.Contains(j.o.Name, oblig) || strings.Contains(sanitizeFile(j.o.Name), oblig) {
+				sel = append(sel, j)
+			}
+		}
+		jobs = sel
 	}
 	genS := time.Since(tGen).Seconds()
 	timeout := 10
